@@ -29,7 +29,7 @@ if grep -q "^package .*_test\|^package seed" $cw/$seed/*_test.go 2>/dev/null && 
 fi
 echo "== demo WITH patch ($demo_dir):"
 go test -count=1 -timeout 120s $run $demo_dir 2>&1 | tail -4
-git stash -q -- $(git diff --name-only) 2>/dev/null || git checkout -q -- $(git diff --name-only)
+git checkout -q -- $(git diff --name-only)
 echo "== demo WITHOUT patch:"
 go test -count=1 -timeout 120s $run $demo_dir 2>&1 | tail -3
 cd /verif
